@@ -1128,12 +1128,13 @@ end C14
 
 namespace C14
 
-theorem rebuildWord_positions {eng : Engine} (he : EngineOK eng) (font : Nat) (s : List Nat) (rbo : Option Nat)
+theorem rebuildWord_positions_full {eng : Engine} (he : EngineOK eng) (font : Nat) (s : List Nat) (rbo : Option Nat)
     (dlb : Bool) (pos : List Nat) (out : List (Item × Bool))
     (hsorted : pos.Pairwise (· < ·)) (hrange : ∀ p ∈ pos, 1 ≤ p ∧ p ≤ s.length)
     (h : rebuildWord eng font s rbo dlb pos = some out) :
     (discPositions (mk out) (it out) 0).map (·.1)
-      = pos.filter (fun p => !coveredBy (discPositions (mk out) (it out) 0) p) := by
+      = pos.filter (fun p => !coveredBy (discPositions (mk out) (it out) 0) p) ∧
+      ∀ t ∈ discPositions (mk out) (it out) 0, 1 ≤ t.1 ∧ t.2.2 ≤ s.length := by
   simp only [rebuildWord, Option.map_eq_some_iff] at h
   obtain ⟨w', hw, rfl⟩ := h
   have b0 : Base font ((eng.run dlb rbo s).map (·.1))
@@ -1158,6 +1159,20 @@ theorem rebuildWord_positions {eng : Engine} (he : EngineOK eng) (font : Nat) (s
       have := (hrange x h2).2
       omega
   have hdone : done' = pos := by have := pi'.split; rw [hnil] at this; simpa using this
-  rw [pi'.disc, pi'.taken, hdone]
+  refine ⟨by rw [pi'.disc, pi'.taken, hdone], ?_⟩
+  intro t ht
+  rw [pi'.disc] at ht
+  refine ⟨?_, by have := pi'.ends t ht; omega⟩
+  have := pi'.fromDone t ht
+  rw [hdone] at this
+  exact (hrange _ this).1
+
+theorem rebuildWord_positions {eng : Engine} (he : EngineOK eng) (font : Nat) (s : List Nat) (rbo : Option Nat)
+    (dlb : Bool) (pos : List Nat) (out : List (Item × Bool))
+    (hsorted : pos.Pairwise (· < ·)) (hrange : ∀ p ∈ pos, 1 ≤ p ∧ p ≤ s.length)
+    (h : rebuildWord eng font s rbo dlb pos = some out) :
+    (discPositions (mk out) (it out) 0).map (·.1)
+      = pos.filter (fun p => !coveredBy (discPositions (mk out) (it out) 0) p) :=
+  (rebuildWord_positions_full he font s rbo dlb pos out hsorted hrange h).1
 
 end C14
